@@ -87,6 +87,17 @@ fn rand_number(rng: &mut Rng) -> Number {
             }
             Number::new_bigint(if rng.chance(1, 2) { -v } else { v })
         }
+        5 if rng.chance(1, 3) => {
+            // the extremes of the 32-bit components
+            let n = *rng.pick(&[i32::MIN, i32::MIN + 1, i32::MAX, i32::MAX - 1, 1, -1]);
+            let d = *rng.pick(&[3, 7, i32::MAX, i32::MAX - 2, 2147483629, 5]);
+            let r = Rational32::new(n, d);
+            if r.is_integer() {
+                Number::Fixnum(*r.numer() as i64)
+            } else {
+                Number::Rational(r)
+            }
+        }
         5 | 6 => {
             let d = rng.range(2, i32::MAX as i64) as i32;
             let n = rng.range(i32::MIN as i64 + 1, i32::MAX as i64) as i32;
